@@ -218,21 +218,23 @@ class Tokenizer(object):
         self.source = source
         self.seek = source.seek
         self.read = source.read
-        self.readline = source.readline
         self.tell = source.tell
         self.lineNumber = 1
 
-# There seems to be a problem with readline in Python 2.4 !!!
     def readline(self):
-        read = self.read
+        """
+        Discard the rest of the current line
+
+        Characters that were pushed back are part of the line and come first.
+
+        """
         mybuffer = self._charBuffer
-        while 1:
-            if mybuffer:
-                char = mybuffer.pop(0)
-            else:
-                char = read(1)
+        while mybuffer:
+            char = mybuffer.pop(0)
+            # (an empty string is the pushed-back end of input)
             if not char or ord(char) == 10:
-                break
+                return
+        self.source.readline()
 
     def iterchars(self) -> Generator[Tuple[CatCode, str], None, None]:
         """
